@@ -11,6 +11,7 @@
  *        iu1 iu2   ZSTD_initDStream_usingDict                     id1 id2   ZSTD_initDStream_usingDDict
  *        rs        ZSTD_resetDStream        xs  ZSTD_DCtx_reset(session_only)     xa  ZSTD_DCtx_reset(session_and_parameters)
  *        ml=<v> so=<v> mdd=<v> wl=<v>   ZSTD_DCtx_setParameter(format | stableOutBuffer | refMultipleDDicts | windowLogMax)
+ *        ce        from here on an error of a decompressStream call no longer ends the history (the next op should be a resetting one)
  *        n         free the context, create a new one             j<pos>    ipos := pos       e<pos>   no later call is offered input beyond pos
  *        s<in>:<cap>   one ZSTD_decompressStream call : in = <n> | a (all that remains) | h (last returned hint) ; cap = <n> | r
  *        t<in>:<cap>   the same through ZSTD_decompressStream_simpleArgs
@@ -58,7 +59,7 @@ static void rret(size_t r) {
 static void cmd_H(char** t) {
     const char* id = t[1]; size_t dn[3] = {0, 0, 0}, fn; unsigned char* dict[3]; unsigned char* f; unsigned char* out = (unsigned char*)malloc(OUTCAP + 1);
     ZSTD_DDict* dd[3] = {NULL, NULL, NULL}; ZSTD_DCtx* d = ZSTD_createDCtx();
-    size_t ipos = 0, opos = 0, hint = 5, iend, lastr = 1; int stable = 0; char* ops = strdup(t[5]); char* sv = NULL; char* p; size_t ncalls = 0;
+    size_t ipos = 0, opos = 0, hint = 5, iend, lastr = 1; int stable = 0; int cont = 0; char* ops = strdup(t[5]); char* sv = NULL; char* p; size_t ncalls = 0;
     dict[0] = NULL; dict[1] = unhex(t[2], &dn[1]); dict[2] = unhex(t[3], &dn[2]); f = unhex(t[4], &fn);
     if (dn[1]) dd[1] = ZSTD_createDDict(dict[1], dn[1]);
     if (dn[2]) dd[2] = ZSTD_createDDict(dict[2], dn[2]);
@@ -87,6 +88,7 @@ static void cmd_H(char** t) {
         else if (!strncmp(p, "mdd=", 4)) r = ZSTD_DCtx_setParameter(d, ZSTD_d_refMultipleDDicts, atoi(p + 4));
         else if (!strncmp(p, "wl=", 3)) r = ZSTD_DCtx_setParameter(d, ZSTD_d_windowLogMax, atoi(p + 3));
         else if (!strcmp(p, "n")) { ZSTD_freeDCtx(d); d = ZSTD_createDCtx(); stable = 0; r = 0; }
+        else if (!strcmp(p, "ce")) { cont = 1; r = 0; }
         else if (p[0] == 'j') { ipos = (size_t)strtoull(p + 1, NULL, 10); if (ipos > fn) ipos = fn; r = 0; lastr = 1; }
         else if (p[0] == 'e') { iend = (size_t)strtoull(p + 1, NULL, 10); if (iend > fn) iend = fn; r = 0; }
         else isset = 0;
@@ -122,7 +124,7 @@ static void cmd_H(char** t) {
                 ncalls++;
                 sprintf(b, "s:%lu:%lu:%lu:%lu:", (unsigned long)offered, (unsigned long)cap, (unsigned long)ib.pos, (unsigned long)(ob.pos - opos0));
                 radd(b); rret(r); radd(";");
-                if (ZSTD_isError(r)) { stop = 1; break; }
+                if (ZSTD_isError(r)) { stop = !cont; lastr = 1; break; }
                 ipos += ib.pos; opos += ob.pos - opos0; hint = r ? r : 5; lastr = r;
                 if (!loop) break;
                 if (ncalls >= 30000) { radd("callbudget=1;"); stop = 1; break; }   /* the history is cut here (the caller sizes its loops below that) */
